@@ -27,7 +27,7 @@ _UNIT_SUITES = [
     ('U-qmap.', ['qualmap']), ('U-qcmp.', ['qualmap']),
     ('U-comb.', ['comb']), ('U-acc.', ['format:C03']),
     ('U-sub.', ['segments']), ('U-ns.', ['segments']),
-    ('U-fmt.', ['format:C03']), ('U-ck', ['checksum']), ('U-dq.', ['tokens:C02 C05']), ('U-parse.', ['tokens:C02 C05', 'spell:C02']),
+    ('U-fmt.', ['format:C03']), ('escape_set_', ['format:C03']), ('type_char', ['preds']), ('key_char', ['preds']), ('package_type_names', ['names']), ('U-ck', ['checksum']), ('U-dq.', ['tokens:C02 C05']), ('U-parse.', ['tokens:C02 C05', 'spell:C02']),
 ]
 
 
@@ -57,12 +57,12 @@ PROPS = {
         explanation='Proved for all strings (Verus): which type strings and qualifier keys are legal and how they are lower-cased (U-vtype, U-shape, '
                     'U-qkey). Which substring is routed to which decoder (from_str) and the segment decoders are checked BOUNDED: exhaustive '
                     'tuples x spelling freedoms (S) and every T_N string against an independent reference recogniser.'),
-    'C03': dict(level='other', groups=['qual', 'purl', 'pkgtype'], kani=ESC, bounded=['format:C03', 'tokens:C03', 'spell:C03'] + A,
+    'C03': dict(level='other', groups=['qual', 'purl', 'pkgtype'], kani=ESC, bounded=['format:C03', 'tokens:C03', 'spell:C03', 'qualmap'] + A,
         explanation='Complete on a finite domain (Kani): every byte of every escape set through the real percent_encode, upper-case hex. Proved (Verus): '
                     'qualifier storage is strictly ascending after every mutator (U-qmap), accessors map empty to None (U-acc). The order of '
                     'components / separators in Display::fmt is checked BOUNDED against an independent renderer on every Unicode scalar value '
                     'in every component position, all ASCII pairs, T_N and S.'),
-    'C04': dict(level='other', groups=['builder', 'lib_shape', 'qual', 'pkgtype'], kani=['type_char', 'key_char'], bounded=['tokens:C04', 'builder', 'protocol', 'preds'] + A,
+    'C04': dict(level='other', groups=['builder', 'lib_shape', 'qual', 'pkgtype'], kani=['type_char', 'key_char'], bounded=['tokens:C04', 'builder', 'protocol', 'preds', 'checksum'] + A,
         explanation='Proved (Verus) for every PurlShape implementation: build() returns a value with non-empty name, qualifier invariant (valid lower-case keys, '
                     'strictly ascending), non-empty values (checksum: canonical text), after exactly one hook call (U-build against an uninterpreted hook relation); '
                     'built-in shapes validate and lower-case the type (U-shape x3). That from_str ends in build() and the checksum text form are checked BOUNDED.'),
@@ -71,7 +71,7 @@ PROPS = {
                     'MissingRequiredField(Name), maven without namespace => MissingRequiredField(Namespace), checksum failure => InvalidQualifier converted with From). '
                     'Routing and decoding faults are checked BOUNDED: every single fault kind x position x spelling over S, and never-accepted over T_N.'),
     'C06': dict(level='other', groups=['lib_lower', 'lib_shape', 'pkgtype', 'qual', 'builder', 'purl'], kani=ESC + ['type_char', 'key_char', 'empty_is_invalid', 'package_type_names'],
-        bounded=['nopanic', 'tokens:C06', 'checksum', 'qualmap', 'protocol'],
+        bounded=['nopanic', 'tokens:C06', 'checksum', 'qualmap', 'protocol', 'preds', 'builder'],
         explanation='Deductive: every verified unit carries Verus obligations for arithmetic overflow, unwrap, indexing and (documented-panic) preconditions, and '
                     'termination of its loops; Kani adds its automatic checks on the harnessed code. Panic sites outside verified units are covered only BOUNDED '
                     '(catch_unwind around every call of every domain, overflow checks on, random strings to 1 MiB).'),
@@ -89,7 +89,7 @@ PROPS = {
     'C10': dict(level='other', groups=['builder', 'purl', 'lib_lower', 'pkgtype'], kani=[], bounded=['tokens:C10', 'spell:C10', 'builder'] + A,
         explanation='Proved (Verus): into_builder moves type and parts unchanged (U-acc), build() = hook + generic clean-up (U-build), name rules are the spec functions lower_seq / '
                     'pypi_norm. Idempotence of the whole pipeline on produced values is checked BOUNDED on every accepted T_N / S string and every built value.'),
-    'C11': dict(level='other', groups=['qual'], kani=['key_char'], bounded=['qualmap'] + A,
+    'C11': dict(level='other', groups=['qual'], kani=['key_char'], bounded=['qualmap', 'preds'] + A,
         explanation='Proved (Verus) for all strings and all contents: key validity and lower-casing, comparator total (never None), search, get, contains_key, insert, remove, clear, '
                     'entry, VacantEntry::insert, OccupiedEntry::{get,get_mut,into_mut,insert,remove,remove_entry}, get_mut, insert_typed, remove_typed each preserve the invariant '
                     'and have whole-content postconditions (named position pos_of, no existential). retain / iterators / try_from_iter / Eq-Hash-Ord are BOUNDED: every reachable '
@@ -114,7 +114,7 @@ PROPS = {
         explanation='Proved (Verus, all strings, all seven types): builder_with_combined_name splits at last_index_of / first_index_of, combined_name joins; lemma_c18_roundtrip derives the '
                     'round trip from proved split/join lemmas. A bounded cross-check on the compiled code accompanies the proof.',
         trusted=['std rsplit_once / split_once contracts (A: bounded replay)']),
-    'C19': dict(level='other', groups=['qual'], kani=[], bounded=['eq', 'tokens:C19'] + A,
+    'C19': dict(level='other', groups=['qual'], kani=[], bounded=['eq', 'tokens:C19', 'preds'] + A,
         explanation='Proved (Verus): QualifierKey comparisons are total and coincide with structural equality on stored keys. Derived Eq/Hash/Ord are assumed consistent (compiler). '
                     'Injectivity of the string form is BOUNDED: all pairs of a near-collision corpus, String and PackageType.'),
 }
